@@ -128,6 +128,14 @@ pub(crate) mod verif_probe {
                 }
                 Some(json!({"steps": out}))
             }
+            "qr_bind" => {
+                let mut qr = QueryRouter::new();
+                qr.update_pool_settings(&settings(&v["settings"]));
+                for p in v["placeholders"].as_array().unwrap() { qr.placeholders.push(p.as_i64().unwrap() as i16); }
+                let msg = BytesMut::from(&hex(v["hex"].as_str().unwrap())[..]);
+                let r = qr.infer_shard_from_bind(&msg);
+                Some(json!({"result": r, "active_shard": qr.active_shard.map(|x| x.to_string()), "placeholders_left": qr.placeholders.len()}))
+            }
             "regexes" => {
                 Some(json!({"regexes": CUSTOM_SQL_REGEXES.to_vec()}))
             }
